@@ -99,7 +99,9 @@ theorem context_RT : context.RT := by
   simp only [context, e1, List.append_assoc, List.cons_append, List.nil_append, bind_apply,
     rt_dec traceInfo_RT hti', readU8_cons]
   rw [if_neg (by omega)]
-  simp [readSlice_append, rt_dec proofOptions_RT ho']
+  simp only [bind_apply, readSlice_append, rt_dec proofOptions_RT ho']
+  rw [if_neg (by omega), if_neg (by omega)]
+  rfl
 
 theorem commitments_RT : commitments.RT := by
   intro bs rest hx
@@ -142,7 +144,9 @@ theorem friProof_RT : friProof.RT := by
   have e1 : p.layers.length % 256 = p.layers.length := Nat.mod_eq_of_lt hn
   have h1 := readMany_rt friLayer_RT hl
   have h2 := rt_dec (block_RT 2) (x := p.remainder) (by simp [block]; omega)
-  simp [friProof, e1, List.append_assoc, readU8_cons, h1, h2]
+  simp only [friProof, e1, List.append_assoc, List.cons_append, List.nil_append, bind_apply, readU8_cons, h1, h2]
+  rw [if_neg (by omega)]
+  rfl
 
 theorem gkr_RT : (option (vec (uint 1))).RT := option_RT (vec_RT (uint_RT 1))
 
